@@ -250,7 +250,8 @@ func (c *shardedMapOf[V]) Walk(walkFn func(e EntryOf[V]) error) (int, error) {
 		for _, v := range c.hashedBuckets[i].data {
 			b.RUnlock()
 
-			err := walkFn(v)
+			// Passing a snapshot, expiration and counter of live entry may be updated concurrently.
+			err := walkFn(TraitEntryOf[V]{K: v.K, V: v.V, E: atomic.LoadInt64(&v.E), C: atomic.LoadInt64(&v.C)})
 			if err != nil {
 				return n, err
 			}
@@ -298,7 +299,7 @@ func (c *shardedMapLegacyWalkerOf[V]) Walk(walkFn func(e Entry) error) (int, err
 			e := TraitEntry{
 				K: v.K,
 				V: v.V,
-				E: v.E,
+				E: atomic.LoadInt64(&v.E),
 			}
 
 			err := walkFn(e)
